@@ -100,7 +100,12 @@ func solve(file string, timeoutS int, thorough bool, cvcFile string) solveResult
 		if x.status == "unsat" || x.status == "sat" {
 			if res.status != "unsat" && res.status != "sat" {
 				res.status, res.solver, res.ms, res.output = x.status, x.s.name, x.ms, x.out
-				cancel()
+				if !thorough {
+					cancel() // quick tier: the first definite answer wins
+				}
+			} else if thorough && x.status != res.status {
+				// thorough tier: every solver runs to its end; two definite answers that differ are reported
+				res.status, res.solver, res.output = "disagree", res.solver+" vs "+x.s.name, "solvers disagree: "+res.status+" / "+x.status
 			}
 		} else if res.status != "unsat" && res.status != "sat" {
 			if res.solver == "" || x.status == "unknown" {
